@@ -20,13 +20,13 @@ CONSTANTS
   CxxClassK <- XClassK
   CxxClassT <- XClassT
   Vias = {"tmpl", "value", "default"}
-  MetaAsk = {"generic_ptr", "basic_ptr", "mvalue_tracked_ptr", "mvalue_double_ptr", "mvalue_int32_ptr", "mvalue_pod3_ptr"}
+  MetaAsk = {"generic_ptr", "basic_ptr", "mvalue_tracked_ptr", "mvalue_double_ptr", "mvalue_int32_ptr"}
   TraitsRegs = {"cspan_pod3", "generic_ptr", "basic_ptr", "mvalue_pod3_ptr"}
   GenericPtr = "generic_ptr"
   BasicPtr = "basic_ptr"
   PropBuf <- XPropBuf
   CxxTypes = {}
-  PayTypes = {"tracked", "pod3", "tracked_ptr", "span_pod3", "int32", "double", "cstr"}
+  PayTypes = {"tracked", "tracked_ptr", "double", "cstr"}
   WrapTypes = {}
   Slots = {1}
   Vals = {2}
